@@ -9,6 +9,7 @@ Require Import Verif.Gen.Tables Verif.Gen.EntryPoints Verif.Gen.Decisions Verif.
 Require Import Verif.Proofs.TerminateP.
 Require Import Verif.Model.GoSem Verif.Model.TermRef.
 Require Verif.Gen.Termination Verif.Proofs.GenTermP.
+Require Verif.Gen.Layout Verif.Proofs.GenLayoutP.
 
 (* tie: the translation of the tail of Entry.logContext regenerated from the source equals the
    reference decision, for both process modes, every flags word in Z and every level in Z *)
@@ -133,6 +134,21 @@ Print Assumptions C12_panic_sites.
 
 (* non-vacuity: production process, default flags 24798: Fatal on a Trace logger with two
    destinations writes twice and exits 253; the same under go test returns; with bit 21 it exits *)
+(* TIE TO THE SOURCE: THE FLAG TESTS.  Every translated function of this development reads a flag through the
+   declared rendering of IsAnyBitsSet(F) - negb (Z.land flags F =? 0) - (the termination tail of this property, the
+   caller part, the path hardening, the attribute assembly, the timestamp).  IsAnyBitsSet, IsAllBitsSet and AddFlags
+   themselves, translated from the source on every run (Gen/Layout.v), are exactly that: the rendering is a
+   theorem about the code, not an assumption about it. *)
+Theorem C12_gen_is_any_bits_set : forall flags f, Layout.is_any_bits_set flags f = negb (Z.land flags f =? 0).
+Proof. exact GenLayoutP.gen_is_any_bits_set. Qed.
+Print Assumptions C12_gen_is_any_bits_set.
+Theorem C12_gen_is_all_bits_set : forall flags f, Layout.is_all_bits_set flags f = (Z.land flags f =? f).
+Proof. exact GenLayoutP.gen_is_all_bits_set. Qed.
+Print Assumptions C12_gen_is_all_bits_set.
+Theorem C12_gen_add_flags : forall flags fs, Layout.add_flags flags fs = fold_left Z.lor fs flags.
+Proof. exact GenLayoutP.gen_add_flags. Qed.
+Print Assumptions C12_gen_add_flags.
+
 Example C12_example :
   log_outcome false 24798 t_mLevelIsEnabledAs false lv_trace lv_fatal [x6d] 2 = [EvWrite 0; EvWrite 1; EvEnd (DoExit 253)]
   /\ log_outcome false 24798 t_mLevelIsEnabledAs false lv_trace lv_panic [x6d] 1 = [EvWrite 0; EvEnd (DoPanic [x6d])]
